@@ -5,7 +5,7 @@ namespace CbiVerif.MX
 open CbiVerif.PP
 
 def plainTokb (t : Tok) : Bool :=
-  t.expandable && t.text != "##" && (t.kind != .ident || (t.text != "None" && t.text != "defined"))
+  t.expandable && t.text != "##" && (t.kind != .ident || t.text != "defined")
 
 theorem plainTok_of_check (t : Tok) (h : plainTokb t = true) : PlainTok t := by
   simp only [plainTokb, Bool.and_eq_true, Bool.or_eq_true, bne_iff_ne, ne_eq] at h
